@@ -7,7 +7,7 @@ use serde_json::json;
 
 use crate::case::{ops_sample, Case, CaseError, Env, Tier};
 use crate::crash::{for_each_crash_point, CrashClass, CrashCtx, Selection};
-use crate::damage::{aimed_damage, apply, live_frames, CDamage, Extras};
+use crate::damage::{apply, live_frames, CDamage, Extras};
 use crate::exec::Exec;
 use crate::iotrace::{Effect, Image};
 use crate::model::{Bytes, Outcome, State};
@@ -22,7 +22,8 @@ fn gen_cfg(tier: Tier) -> GenCfg {
     let mut cfg = super::c01::gen_cfg(tier);
     cfg.max_ops = if tier == Tier::Quick { 22 } else { 36 };
     cfg.restart_policies = vec![];
-    cfg.w_delete = 0;
+    cfg.w_delete = 3;
+    cfg.w_create = 7;
     cfg.w_restart = 3;
     cfg.w_persist = 0;
     cfg.w_append = 60;
@@ -32,6 +33,7 @@ fn gen_cfg(tier: Tier) -> GenCfg {
     cfg.w_special_names = 0;
     cfg.w_missing_names = 1;
     cfg.w_len.huge = 0;
+    cfg.w_recreate_motif = 30;
     cfg.w_aligned_batch = 12;
     cfg.w_len.fileish = 8;
     cfg.w_len.blockish = 24;
@@ -48,17 +50,31 @@ pub struct Batch {
     pub payloads: Vec<Bytes>,
     pub frames: usize,
     pub files: usize,
+    /// Every payload is >= 8 pseudo-random bytes: a recovered record can be attributed to this batch by its bytes.
+    pub identifiable: bool,
 }
 
 /// All-or-nothing oracle over every batch of the history.
-pub fn check_batches(batches: &[Batch], truncs: &BTreeMap<String, BTreeSet<u64>>, got: &State) -> Result<(), String> {
+pub fn check_batches(batches: &[Batch], truncs: &BTreeMap<String, BTreeSet<u64>>, reused: &BTreeSet<String>, got: &State) -> Result<(), String> {
     for batch in batches {
         let Some(queue) = got.get(&batch.queue) else {
             continue;
         };
         let count = batch.payloads.len() as u64;
         let end = batch.first + count; // exclusive
-        let recovered: Vec<&(u64, Bytes)> = queue.recs.iter().filter(|(pos, _)| *pos >= batch.first && *pos < end).collect();
+        // When the queue name was deleted and re-created, positions may belong to several batches: a recovered record
+        // is then attributed to this batch by its bytes, and batches with non-identifying payloads are not judged.
+        let name_reused = reused.contains(&batch.queue);
+        if name_reused && !batch.identifiable {
+            continue;
+        }
+        let recovered: Vec<&(u64, Bytes)> = queue
+            .recs
+            .iter()
+            .filter(|(pos, bytes)| {
+                *pos >= batch.first && *pos < end && (!name_reused || *bytes == batch.payloads[(*pos - batch.first) as usize])
+            })
+            .collect();
         if recovered.is_empty() {
             continue;
         }
@@ -103,8 +119,9 @@ impl Property for C12 {
 
     fn rule(&self) -> String {
         "generated histories dominated by batches of 0..8 records (sizes 0..150 KiB, aimed block/file alignments so that \
-         entries are multi-frame and cross block and file boundaries), interleaved truncations and restarts, no queue \
-         deletion (so a position belongs to one batch only), under Always(Flush). (a) crash points ENUMERATED over the \
+         entries are multi-frame and cross block and file boundaries), interleaved truncations, restarts and some queue deletions / re-creations (for a re-used queue name a \
+         recovered record is attributed to a batch by its bytes, and only batches whose payloads are all >= 8 pseudo-random \
+         bytes are judged), under Always(Flush). (a) crash points ENUMERATED over the \
          recorded I/O trace: every effect boundary, every frame boundary, cuts inside headers and payloads, between files. \
          (b) for every frame still present in the final WAL image (<= 300 per history, else a generated subset) one aimed \
          damage of that single frame (crc / len / type / payload bytes), plus 8 images with 2..4 in-place damages each (aimed \
@@ -144,6 +161,8 @@ impl Property for C12 {
         let mut exec = Exec::new(&dir, case.policy)?;
         let mut batches: Vec<Batch> = Vec::new();
         let mut truncs: BTreeMap<String, BTreeSet<u64>> = BTreeMap::new();
+        // queue names that were deleted at some point (their positions may be used by several incarnations)
+        let mut reused: BTreeSet<String> = BTreeSet::new();
         for sop in &case.ops {
             let cop = exec.resolve(sop);
             let payloads: Vec<Bytes> = match &cop {
@@ -164,10 +183,17 @@ impl Property for C12 {
                         payloads,
                         frames: frames.len(),
                         files: files.len(),
+                        identifiable: match &step.cop {
+                            COp::Append { batch, .. } => batch.iter().all(|pay| pay.len >= 8 && pay.style == 0),
+                            _ => false,
+                        },
                     });
                 }
                 (COp::Truncate { q, pos }, Outcome::Truncated { .. }) => {
                     truncs.entry(q.text()).or_default().insert(*pos);
+                }
+                (COp::Delete { q }, Outcome::Deleted) => {
+                    reused.insert(q.text());
                 }
                 _ => {}
             }
@@ -205,7 +231,7 @@ impl Property for C12 {
                         return Ok(());
                     }
                 };
-                if let Err(msg) = check_batches(&batches, &truncs, &state) {
+                if let Err(msg) = check_batches(&batches, &truncs, &reused, &state) {
                     return Err(exec.failure(format!("{where_}: {msg}"), "batch-not-atomic-after-crash", extra));
                 }
                 env.class("crash-recovery");
@@ -239,7 +265,7 @@ impl Property for C12 {
                     .enumerate()
                     .filter(|(idx, _)| idx % stride == offset)
                     .map(|(_, frame)| {
-                        let (damage, field) = aimed_damage(frame, &final_image, splitmix(&mut word_state));
+                        let (damage, field) = crate::damage::aimed_damage_in_context(frame, &live, &final_image, splitmix(&mut word_state));
                         (vec![damage], Some(frame.op), field.name())
                     })
                     .collect(),
@@ -254,7 +280,7 @@ impl Property for C12 {
                     for _ in 0..count {
                         if splitmix(&mut word_state) % 2 == 0 {
                             let frame = &live[(splitmix(&mut word_state) % live.len() as u64) as usize];
-                            list.push(aimed_damage(frame, &final_image, splitmix(&mut word_state)).0);
+                            list.push(crate::damage::aimed_damage_in_context(frame, &live, &final_image, splitmix(&mut word_state)).0);
                             op = Some(frame.op);
                         } else if let Some(damage) = crate::damage::random_inplace_damage(&final_image, &extents, splitmix(&mut word_state)) {
                             list.push(damage);
@@ -296,7 +322,7 @@ impl Property for C12 {
                         }
                     }
                 };
-                if let Err(msg) = check_batches(&batches, &truncs, &state) {
+                if let Err(msg) = check_batches(&batches, &truncs, &reused, &state) {
                     return Err(exec.failure(format!("in-place damage ({field}) {:?}: {msg}", damage.iter().map(describe_damage).collect::<Vec<_>>()), "batch-not-atomic-after-damage", extra));
                 }
                 env.class(&format!("damage:{field}"));
